@@ -248,3 +248,15 @@ package container
 //@ assigns Failed
 //@ ensures [returns-component] implies(result1 == nil && component != nil, result0 != nil)
 //@ ensures [failure-recorded] Failed == (old(Failed) || result1 != nil)
+
+// GetMetas without options enumerates the definitions: every result is a registered definition, every definition
+// occurs, none twice; the order is unspecified (for all orders).
+//@ ghost var MetasPos map[string]int
+//@ method (DefinitionRegistry).GetMetas
+//@ property C06 C10
+//@ requires [inv] DefInv(self)
+//@ assigns MetasPos
+//@ ensures [sound] forall(i, int, implies(0 <= i && i < len(result), result[i] != nil && self.DefDom[result[i].Name()] && self.Def[result[i].Name()] == result[i]), result[i])
+//@ ensures [complete] implies(len(opts) == 0, forall(n, string, implies(self.DefDom[n], 0 <= MetasPos[n] && MetasPos[n] < len(result) && result[MetasPos[n]] == self.Def[n]), self.DefDom[n]))
+//@ ensures [no-dup] forall(i, int, forall(j, int, implies(0 <= i && i < j && j < len(result), result[i] != result[j])))
+//@ ensures [fresh-list] backing(result) == 0 || fresh(result)
